@@ -3,4 +3,4 @@
 d="$1"; shift
 o=$(VERIF_PROCS=${VERIF_PROCS:-6} VERIF_BUDGET_SCALE=${VERIF_BUDGET_SCALE:-4} /verif/tools/with_patch.sh "$d/patch.diff" "$@" 2>&1)
 echo "$o" > "$d/check.log"
-echo "$d :: $(echo "$o" | grep -E '^== ' | tr '\n' ' ') :: $(echo "$o" | grep -c '^VIOLATION') violations :: $(echo "$o" | grep '^VIOLATION' | sed -E 's/.*signature=([^ ]+).*/\1/' | tr '\n' ' ')" >> /tmp/seed/results.txt
+echo "$d :: $(echo "$o" | grep -E '^== ' | tr '\n' ' ') :: $(echo "$o" | grep -c '^VIOLATION') violations :: $(echo "$o" | grep '^VIOLATION' | sed -E 's/.*signature=(.*) count=[0-9]+ ::.*/\1/' | tr '\n' '|')" >> /tmp/seed/results.txt
